@@ -1,18 +1,22 @@
 """Unit `builtin_list`: marwood/src/vm/builtin/list.rs — pair accessors / mutators and list indexing (C14)."""
 
+import os, sys
+sys.path.insert(0, os.path.dirname(os.path.abspath(__file__)))
+import importlib
+import builtin as _b
+importlib.reload(_b)
 PRELUDE = r'''
 use crate::vm::builtin::*;
 use crate::vm::heap::Heap;
 /// Heap::get_at_index_mut hands out one cell: everything else in the heap keeps its meaning
 pub uninterp spec fn heap_len(h: Heap) -> nat;
+/// (unit `heap` proves this model from the contract it verifies against the real body: same text over the concrete views)
+pub open spec fn gim_model(h0: Heap, h1: Heap, p: usize, r0: VCell, r1: VCell) -> bool {
+GIM_MODEL_BODY
+}
 pub assume_specification [Heap::get_at_index_mut] (h: &mut Heap, p: usize) -> (r: &mut VCell)
     requires (p as nat) < heap_len(*old(h)),
-    ensures *r == heap_deref(*old(h), VCell::Ptr(p)),
-            heap_deref(*final(h), VCell::Ptr(p)) == *final(r),
-            heap_len(*final(h)) == heap_len(*old(h)),
-            forall|c: VCell| #[trigger] heap_live(*final(h), c) == heap_live(*old(h), c),
-            forall|q: usize| q != p ==> #[trigger] heap_deref(*final(h), VCell::Ptr(q)) == heap_deref(*old(h), VCell::Ptr(q)),
-            forall|c: VCell| !(c is Ptr) ==> #[trigger] heap_deref(*final(h), c) == heap_deref(*old(h), c);
+    ensures GIM_MODEL_INLINE;
 /// std: `impl<T> From<T> for T` is the identity, hence so is `Into<VCell> for VCell`
 #[verifier::external_body]
 pub proof fn axiom_vcell_into_self_l()
@@ -62,19 +66,13 @@ pub open spec fn cars_of(h: Heap, first: VCell, cars: Seq<usize>) -> bool {
 }
 /// none of the cells was allocated in h
 pub open spec fn all_fresh(h: Heap, cells: Seq<usize>) -> bool { forall|i: int| 0 <= i < cells.len() ==> !heap_live(h, VCell::Ptr(#[trigger] cells[i])) }
-/// heap step "one cell allocated": cell p was free and now holds v, every other cell keeps content and liveness
+/// heap step "one cell allocated": cell p was free and now holds v, every allocated cell keeps content and liveness
 pub open spec fn one_cell_added(h1: Heap, h2: Heap, p: usize, v: VCell) -> bool {
     &&& !heap_live(h1, VCell::Ptr(p)) && heap_live(h2, VCell::Ptr(p)) && heap_deref(h2, VCell::Ptr(p)) == v
-    &&& forall|c: VCell| c != VCell::Ptr(p) ==> #[trigger] heap_deref(h2, c) == heap_deref(h1, c)
-    &&& forall|c: VCell| #[trigger] heap_live(h1, c) ==> heap_live(h2, c)
+    &&& forall|c: VCell| #[trigger] heap_live(h1, c) ==> heap_live(h2, c) && heap_deref(h2, c) == heap_deref(h1, c)
 }
 /// heap step "one cell overwritten": cell p now holds v, nothing else changes, liveness is untouched
-pub open spec fn one_cell_changed(h1: Heap, h2: Heap, p: usize, v: VCell) -> bool {
-    &&& heap_deref(h2, VCell::Ptr(p)) == v
-    &&& forall|q: usize| q != p ==> #[trigger] heap_deref(h2, VCell::Ptr(q)) == heap_deref(h1, VCell::Ptr(q))
-    &&& forall|c: VCell| !(c is Ptr) ==> #[trigger] heap_deref(h2, c) == heap_deref(h1, c)
-    &&& forall|c: VCell| #[trigger] heap_live(h2, c) == heap_live(h1, c)
-}
+pub open spec fn one_cell_changed(h1: Heap, h2: Heap, p: usize, v: VCell) -> bool { gim_model(h1, h2, p, heap_deref(h1, VCell::Ptr(p)), v) }
 /// one iteration of clone_list: allocate the pair (a, nil) at pp, then hang it behind the previous last cell (if there is one)
 pub proof fn lemma_clone_step(h0: Heap, h_in: Heap, h_put: Heap, h: Heap, c0: Seq<usize>, a0: Seq<usize>, nil: usize, pp: usize, a: usize)
     requires
@@ -130,6 +128,8 @@ pub open spec fn cloned(h0: Heap, h1: Heap, list: VCell, head: VCell, tl: VCell,
 pub open spec fn has_tails(h: Heap, start: VCell, j: nat) -> bool { forall|i: nat| i < j ==> #[trigger] heap_deref(h, tail_ptr(h, start, i)) is Pair }
 '''
 
+PRELUDE = PRELUDE.replace('GIM_MODEL_INLINE', _b.inline_model(_b.GIM_MODEL_TEMPLATE, {'DEREF': 'heap_deref', 'LIVE': 'heap_live', 'LEN': 'heap_len'}, {'h0': '*old(h)', 'h1': '*final(h)', 'r0': '*r', 'r1': '*final(r)'}))
+PRELUDE = PRELUDE.replace('GIM_MODEL_BODY', _b.GIM_MODEL_TEMPLATE.replace('DEREF', 'heap_deref').replace('LIVE', 'heap_live').replace('LEN', 'heap_len'))
 L = ['C14', 'C06']
 REQ = ['old(vm).stack_spec().wf()']
 UNITS = [{
@@ -221,7 +221,8 @@ UNITS = [{
             'inserts': [
                 {'anchor': 'loop {', 'where': 'before', 'text': 'let ghost mut gcells: Seq<usize> = Seq::empty(); let ghost mut gcars: Seq<usize> = Seq::empty();'},
                 {'loop_start': 0, 'text': 'let ghost h_in = vm.heap_spec(); let ghost c0 = gcells; let ghost a0 = gcars; let ghost rest0 = rest;'},
-                {'anchor': 'if head.is_nil() {', 'where': 'before', 'text': 'let ghost gp = pair; let ghost h_put = vm.heap_spec();'},
+                {'anchor': 'if head.is_nil() {', 'where': 'before', 'text': '''let ghost gp = pair; let ghost h_put = vm.heap_spec();
+                    proof { match (rest0, gp) { (VCell::Pair(a, d), VCell::Ptr(pp)) => { assert(put_model(h_in, h_put, VCell::Pair(a, nil), gp)); assert(one_cell_added(h_in, h_put, pp, VCell::Pair(a, nil))); } _ => {} } }'''},
                 {'anchor': 'let last_pair = vm.heap.get(&tail);', 'where': 'after', 'text': 'proof { axiom_cow_cell_ref(&tail); match tail { VCell::Ptr(tp) => { axiom_live_ptr(vm.heap_spec(), tp); } _ => {} } }'},
                 {'anchor': 'return Ok((head, tail));', 'where': 'before', 'text': '''proof {
                         assert(chain(vm.heap_spec(), gcells, gcars, nil));
